@@ -1369,6 +1369,9 @@ class SVG:
         # https://github.com/googlefonts/picosvg/issues/269 remove empty subpaths *after* rounding
         self.remove_empty_subpaths(inplace=True)
         self.remove_unpainted_shapes(inplace=True)
+        # dropping unpainted shapes may leave gradients nobody references
+        self._remove_orphaned_gradients()
+        self.elements = None
 
         violations = self.checkpicosvg(
             allow_text=allow_text, drop_unsupported=drop_unsupported
